@@ -641,6 +641,9 @@ func (it *Interp) vrtCall(name string, args []Val) Val {
 		it.allocBudg = int(args[0].(Int).C)
 		it.res.Bounds["alloc_budget_elems"] = it.allocBudg
 		return nil
+	case "SampleSizes":
+		it.sizeSampling = true
+		return nil
 	case "StepBudget":
 		it.stepBudget = int(args[0].(Int).C) + it.steps
 		it.res.Bounds["step_budget"] = int(args[0].(Int).C)
